@@ -281,8 +281,8 @@ END_LEXICAL_FORM:
 			return rdf.Literal{}, nil, grammar.R_literal.Err(err)
 		}
 
-		if iri == rdfiri.LangString_Datatype {
-			// a language-tagged string cannot be written with an explicit datatype: it would have no tag
+		if iri == rdfiri.LangString_Datatype || iri == rdfiri.Base+"dirLangString" {
+			// a (directional) language-tagged string cannot be written with an explicit datatype: it would have no tag
 			return rdf.Literal{}, nil, grammar.R_literal.Err(grammar.R_IRIREF.ErrWithTextOffsetRange(fmt.Errorf("datatype requires a language tag: %s", iri), iriRange))
 		}
 
